@@ -1,0 +1,34 @@
+//go:build verif
+
+// Contracts for package udf, read by /verif/engine (govc). Comments only.
+package udf
+
+// ---------------------------------------------------------------- server.go (C19, C05)
+
+// Fields are split by dynamic type into four maps, each value unchanged; a field of any other
+// type (time.Duration from eval, nil from an outer join fill) is an error, never a panic.
+//@ spec udfType(v interface{}) bool = typeis(v, string) || typeis(v, float64) || typeis(v, int64) || typeis(v, bool)
+//@ func (*Server).fieldsToTypedMaps
+//@   props C19 C05
+//@   modifies nothing
+//@   ensures (err == nil) <==> (forall k string :: has(fields, k) ==> udfType(fields[k]))
+//@   ensures err == nil ==> forall k string :: has(fields, k) && typeis(fields[k], string) ==> has(strs, k) && strs[k] == as(fields[k], string)
+//@   ensures err == nil ==> forall k string :: has(fields, k) && typeis(fields[k], float64) ==> has(floats, k) && floats[k] == as(fields[k], float64)
+//@   ensures err == nil ==> forall k string :: has(fields, k) && typeis(fields[k], int64) ==> has(ints, k) && ints[k] == as(fields[k], int64)
+//@   ensures err == nil ==> forall k string :: has(fields, k) && typeis(fields[k], bool) ==> has(bools, k) && bools[k] == as(fields[k], bool)
+//@   ensures forall k string :: has(strs, k) ==> has(fields, k) && typeis(fields[k], string)
+//@   ensures forall k string :: has(floats, k) ==> has(fields, k) && typeis(fields[k], float64)
+//@   ensures forall k string :: has(ints, k) ==> has(fields, k) && typeis(fields[k], int64)
+//@   ensures forall k string :: has(bools, k) ==> has(fields, k) && typeis(fields[k], bool)
+//@   loop 1
+//@     modifies nothing
+//@     invariant (strs == nil || newinloop(strs)) && (floats == nil || newinloop(floats)) && (ints == nil || newinloop(ints)) && (bools == nil || newinloop(bools))
+//@     invariant forall k string :: seen(k) && typeis(fields[k], string) ==> has(strs, k) && strs[k] == as(fields[k], string)
+//@     invariant forall k string :: seen(k) && typeis(fields[k], float64) ==> has(floats, k) && floats[k] == as(fields[k], float64)
+//@     invariant forall k string :: seen(k) && typeis(fields[k], int64) ==> has(ints, k) && ints[k] == as(fields[k], int64)
+//@     invariant forall k string :: seen(k) && typeis(fields[k], bool) ==> has(bools, k) && bools[k] == as(fields[k], bool)
+//@     invariant forall k string :: has(strs, k) ==> seen(k) && typeis(fields[k], string)
+//@     invariant forall k string :: has(floats, k) ==> seen(k) && typeis(fields[k], float64)
+//@     invariant forall k string :: has(ints, k) ==> seen(k) && typeis(fields[k], int64)
+//@     invariant forall k string :: has(bools, k) ==> seen(k) && typeis(fields[k], bool)
+//@     invariant forall k string :: seen(k) ==> has(fields, k) && udfType(fields[k])
